@@ -229,15 +229,17 @@ func init() {
 	thrAssume := func(extra ...string) []string {
 		return append(append(extra, "schedules: every interleaving of the goroutines at synchronisation granularity (atomics, mutexes, go, Gosched, Sleep, receiver yields) with at most 2 preemptions; interleavings are enumerated by the executor's scheduler decisions, data (payloads, crash flags) is symbolic and decided by z3", "goscheduler.Schedule's `go fn()` is an executor thread"), commonAssumptions...)
 	}
+	backlog := HarnessSpec{Name: "backlog-longer-than-a-batch", Pkg: "actor", Func: "ZZ_Inbox_Backlog", Preempt: 0,
+		Params: pm("ZZMAXALLOC", 20000, "ZZDETSCHED", 1), Witnesses: []string{"backlog-split-into-batches"}, MaxSteps: 6_000_000, Deadline: 30 * time.Minute}
 	reg(&PropSpec{
 		ID: "C01",
 		Harnesses: func(tier string) []HarnessSpec {
-			return []HarnessSpec{inbox(1, tier, "several-batches"), l2(4, tierSel(tier, 2, 2), tierSel(tier, 2, 3), 0, "partially-accepted")}
+			return []HarnessSpec{inbox(1, tier, "several-batches"), l2(4, tierSel(tier, 2, 2), tierSel(tier, 2, 3), 0, "partially-accepted"), backlog}
 		},
 		Bounds: func(tier string) string {
 			return fmt.Sprintf("inbox unit: %d sender goroutines x 2 messages with symbolic payloads, initial ring size 1..2 (growth and wrap occur), Start before or racing with the senders, preemption bound 2; process unit: spawner + 2 senders on a real process/Inbox of size 1", tierSel(tier, 2, 3))
 		},
-		Outside:     []string{"more goroutines / messages / preemptions", "ring-buffer arithmetic beyond these sizes (C14 covers it inductively)", "batches above messageBatchSize"},
+		Outside:     []string{"more goroutines / messages / preemptions", "ring-buffer arithmetic beyond these sizes (C14 covers it inductively)", "backlogs above messageBatchSize only sequentially: 4097 or 4100 messages queued before Start (or behind a started worker), initial ring size 1, 1024 or 4096, one schedule"},
 		Assumptions: thrAssume("inbox unit: real Inbox, RingBuffer and goscheduler with a recording Processer"),
 	})
 	reg(&PropSpec{
@@ -253,11 +255,11 @@ func init() {
 	})
 	reg(&PropSpec{
 		ID:        "C03",
-		Harnesses: func(tier string) []HarnessSpec { return []HarnessSpec{inbox(3, tier)} },
+		Harnesses: func(tier string) []HarnessSpec { return []HarnessSpec{inbox(3, tier), backlog} },
 		Bounds: func(tier string) string {
 			return fmt.Sprintf("%d sender goroutines x 2 messages, initial ring size 1..2, Start before or racing with the senders, preemption bound 2; at quiescence (every goroutine finished) all messages were handled, the ring is empty and the status is idle", tierSel(tier, 2, 3))
 		},
-		Outside:     []string{"more goroutines / messages / preemptions", "Stop racing with Send"},
+		Outside:     []string{"more goroutines / messages / preemptions", "Stop racing with Send", "backlogs above messageBatchSize only sequentially (4097 / 4100 messages, one schedule)"},
 		Assumptions: thrAssume("inbox unit as for C01"),
 	})
 	reg(&PropSpec{
